@@ -753,7 +753,10 @@ class PointsTo:
         k = v['k']
         if k == 'i': return ('v', fn.name, v['id'])
         if k == 'a': return ('p', fn.name, v['n'])
-        if k == 'g': return ('addri' if v.get('off') else 'addr', ('global', v['name']))      # ('addri': the address of something inside the global)
+        if k == 'g':
+            n = ('addri' if v.get('off') else 'addr', ('global', v['name']))      # ('addri': the address of something inside the global)
+            self.pts[n].add(n[1])
+            return n
         if k == 'f': return ('addr', ('func', v['name']))
         if k == 'ce':
             # constant expression: union of operand nodes via a fresh node
